@@ -10,6 +10,8 @@ def build(chk):
     slopecov.kernel_obligations(chk)
     slopecov.geometry_obligations(chk, 2, 2)
     slopecov.assembly_obligations(chk, 3, 2, mp=False)
+    with chk.borrow("C03"):
+        slopecov.assembly_obligations(chk, 3, 2, mp=True)       # the same matrix whichever build path is taken (threads != 1)
     slopecov.composition_lemma(chk)
     # the kernels are proved against an abstract structure function D = structure_function_vk; that this D is the von Karman one is C08's contract, re-checked here
     with chk.borrow("C08"):
